@@ -70,13 +70,31 @@ class C03(core.Prop):
         kept = set(rx.kept_examples(case['examples'], case['opts']))
         return len(kept) <= case['size']['do_all']
 
+    def _recorded(self, case):
+        key = json.dumps(case, sort_keys=True)
+        if getattr(self, '_rk', None) != key:
+            self._rk = key
+            self._rv = rx.run_extract_recorded(case['examples'], case['opts'], case['size'], case['seed'], case['form'])
+        return self._rv
+
     def model_ops(self, case):
-        if not rx.nosampling(case['examples'], case['opts'], case['size']):
+        if not rx.modelled(case['examples'], case['opts']):
             return []
-        return [rx.model_extract_op(case['examples'], case['opts'], 'dict' if case['form'] == 'dict' else 'list')]
+        form = 'dict' if case['form'] == 'dict' else 'list'
+        if rx.nosampling(case['examples'], case['opts'], case['size']):
+            return [rx.model_extract_op(case['examples'], case['opts'], form)]
+        # with sampling: the loop model, replaying what random.sample returned in the run it is compared with
+        res, exc, picks = self._recorded(case)
+        if exc is not None or any(not isinstance(x, list) for p in picks for x in p):
+            return []
+        self.count('sampled_traces')
+        return [rx.model_sampled_op(case['examples'], case['opts'], case['size'], picks, form)]
 
     def impl_outputs(self, case):
-        res, exc, _, _ = rx.run_extract(case['examples'], case['opts'], case['size'], case['seed'], case['form'])
+        if rx.nosampling(case['examples'], case['opts'], case['size']):
+            res, exc, _, _ = rx.run_extract(case['examples'], case['opts'], case['size'], case['seed'], case['form'])
+        else:
+            res, exc, _ = self._recorded(case)
         if exc is not None:
             return [{'exc': type(exc).__name__}]
         return [{'rex': list(res)}]
@@ -90,6 +108,18 @@ class C03(core.Prop):
         if case['size']:
             self.count('sized')
         return json.dumps(case, sort_keys=True) if len(set(case['examples'])) >= 2 else None
+
+    def _cured_by_ascii_digits(self, case, s):
+        def sub(x):
+            return None if x is None else ''.join('5' if (c.isdecimal() and not '0' <= c <= '9') else c for c in x)
+        ex2 = [sub(x) for x in case['examples']]
+        res, exc, _, _ = rx.run_extract(ex2, case['opts'], case['size'], case['seed'], case['form'])
+        if exc is not None:
+            return False
+        try:
+            return any(rx.full_match(r, sub(s)) for r in res)
+        except re.error:
+            return False
 
     def oracle(self, case):
         F = []
@@ -113,10 +143,14 @@ class C03(core.Prop):
                 return F
             if not ok:
                 kinds = classify(t, dialect)
-                if 'digit-like-not-decimal' in kinds:
+                if 'non-ascii-decimal-digit' in kinds and dialect in ('portable', 'grep') and self._cured_by_ascii_digits(case, s):
+                    # the cause is established, not guessed: with every non-ASCII decimal digit replaced by an ASCII one
+                    # the same example is matched
+                    key = 'unmatched:non-ascii-decimal-digit:%s' % dialect
+                elif 'digit-like-not-decimal' in kinds:
                     key = 'unmatched:digit-like-not-decimal'
                 elif 'non-ascii-decimal-digit' in kinds and dialect in ('portable', 'grep'):
-                    key = 'unmatched:non-ascii-decimal-digit:%s' % dialect
+                    key = 'unmatched:non-ascii-decimal-digit:%s:not-cured-by-ascii' % dialect
                 elif set(t) & set('^-') and re.search(r'\[\^', ''.join(res)):
                     key = 'unmatched:negated-bracket'
                 elif s.endswith('\n') and any(re.match(re.compile(r, rx.FLAGS), s) for r in res):
